@@ -6,6 +6,7 @@ case and of the code under /repo.
 """
 import gc
 import sys
+import inspect
 import math
 import warnings
 import operator
@@ -432,8 +433,13 @@ class World:
             coro = self._cage_child(spec)
         elif spec.get("wraps") and spec["wraps"] in self.tasks:
             coro = self.tasks[spec["wraps"]]     # the payload is another Task: `scope.do(task)`
+        elif spec.get("payload") is not None:
+            # the documented idiom `scope.do(time + 20)` / `scope.do(eternity, volatile=True)`:
+            # the payload is a notification, not a coroutine
+            coro = self.build(spec["payload"])
         else:
             coro = self.actor(spec)
+        self.last_payload = coro
         task = scope.do(coro, **kwargs)
         if cage != "child":
             self.tasks[name] = task
@@ -576,8 +582,16 @@ class World:
         try:
             await self.run_ops(a, op["body"])
         except BaseException as err:
-            if is_signal(err) or isinstance(err, HarnessAbort):
+            if isinstance(err, HarnessAbort):
                 raise
+            if is_signal(err):
+                if op.get("convert") and not isinstance(err, GeneratorExit):
+                    # `except BaseException: raise Mine()` - a signal turned into a failure
+                    self.log(a, "converted", self.meta(err))
+                    await self.op_raise(a, op["convert"])
+                raise
+            if op.get("convert"):
+                raise            # a converting handler handles signals only
             if not op.get("all") and not isinstance(err, (Exception, Concurrent)):
                 raise
             self.log(a, "caught", self.meta(err))
@@ -596,6 +610,9 @@ class World:
             for sub in op.get("sync", ()):
                 await self.ops[sub["op"]](a, sub)        # these ops never suspend
             self.log(a, "cleanup-")
+            if op.get("convert"):
+                # clean-up that fails: the close / signal is answered with a program exception
+                await self.op_raise(a, op["convert"])
             raise
         except BaseException as err:
             self.log(a, "cleanup+", self.meta(err))
@@ -603,6 +620,8 @@ class World:
             for sub in op.get("sync", ()):
                 await self.ops[sub["op"]](a, sub)
             self.log(a, "cleanup-")
+            if op.get("convert") and is_signal(err):
+                await self.op_raise(a, op["convert"])
             raise
         else:
             await self.run_ops(a, op.get("handler", ()))
@@ -877,7 +896,11 @@ class World:
             self.spawn(scope, spec, a, op["into"])
         except Exception as err:
             if ScopeClosed is not None and isinstance(err, ScopeClosed):
-                self.log(a, "spawn.refused", op["into"], spec["name"])
+                # "the payload is discarded": a refused coroutine is closed, not merely ignored
+                payload, self.last_payload = getattr(self, "last_payload", None), None
+                state = inspect.getcoroutinestate(payload) if inspect.iscoroutine(payload) \
+                    else None
+                self.log(a, "spawn.refused", op["into"], spec["name"], state)
             else:
                 raise
 
